@@ -155,16 +155,23 @@ def v2(ctx):
     duo = _DU(cfgo)
 
     def strips_params(e, node, depth=0):
+        """The lookup key is the media type without its parameters: `<ct>.split(';')[0]` / `.partition(';')[0]`
+        (also through tuple unpacking / local names) or the result of a header parser."""
+        def leaf_ok(v, path):
+            if isinstance(v, ast.Call) and isinstance(v.func, ast.Attribute) and v.func.attr in ("split", "partition") \
+                    and v.args and ctx.P.try_fold(ob.module, v.args[0]) == ";" and tuple(path) == (0,):
+                return True
+            if isinstance(v, ast.Call) and (dotted(v.func) or "").split(".")[-1] in ("parse_type", "parse_header", "parse_options_header"):
+                return True
+            return False
+        os_ = origins(duo, node, e)
+        if os_ and all(o.kind == "expr" and o.leaf is not None and leaf_ok(o.leaf, o.path) for o in os_):
+            return True
         for x in ast.walk(e):
-            if isinstance(x, ast.Subscript) and isinstance(x.value, ast.Call) and isinstance(x.value.func, ast.Attribute) and x.value.func.attr in ("split", "partition") \
-                    and x.value.args and ctx.P.try_fold(ob.module, x.value.args[0]) == ";" and ctx.P.try_fold(ob.module, x.slice) == 0:
+            if isinstance(x, ast.Subscript) and ctx.P.try_fold(ob.module, x.slice) == 0 and leaf_ok(x.value, (0,)):
                 return True
-            if isinstance(x, ast.Call) and (dotted(x.func) or "").split(".")[-1] in ("parse_type", "parse_header", "parse_options_header"):
+            if isinstance(x, ast.Call) and leaf_ok(x, ()):
                 return True
-            if isinstance(x, ast.Name) and depth < 3:
-                for d in duo.reaching(node, x.id):
-                    if d.value is not None and d.kind == "assign" and strips_params(d.value, d.node, depth + 1):
-                        return True
         return False
     for g in gets + subs:
         node = [n for n in cfgo.stmt_nodes() if any(g is x for e in n.exprs() for x in ast.walk(e))]
@@ -226,6 +233,29 @@ def v2(ctx):
                         frame.add("begin")
                     if t.func.attr == "endswith" and all(isinstance(x, bytes) and x.rstrip().endswith(b"END:VCARD") for x in vs):
                         frame.add("end")
+                # the slice idiom for the same tests: X[:len(T)] == T  /  X[-len(T):] == T
+                if isinstance(t, ast.Compare) and len(t.ops) == 1 and isinstance(t.ops[0], (ast.Eq, ast.NotEq)) and pol == isinstance(t.ops[0], ast.Eq):
+                    for a_, b_ in ((t.left, t.comparators[0]), (t.comparators[0], t.left)):
+                        tv = ctx.P.try_fold(f.module, b_)
+                        if not (isinstance(a_, ast.Subscript) and isinstance(a_.slice, ast.Slice) and isinstance(tv, bytes) and a_.slice.step is None):
+                            continue
+
+                        def bound(x):
+                            if x is None:
+                                return None
+                            if isinstance(x, ast.UnaryOp) and isinstance(x.op, ast.USub):
+                                inner = bound(x.operand)
+                                return -inner if isinstance(inner, int) else "?"
+                            if isinstance(x, ast.Call) and dotted(x.func) == "len" and len(x.args) == 1:
+                                lv = ctx.P.try_fold(f.module, x.args[0])
+                                return len(lv) if isinstance(lv, (bytes, str)) else "?"
+                            c_ = ctx.P.try_fold(f.module, x)
+                            return c_ if isinstance(c_, int) else "?"
+                        lo, hi = bound(a_.slice.lower), bound(a_.slice.upper)
+                        if lo in (None, 0) and hi == len(tv) and tv.startswith(b"BEGIN:VCARD"):
+                            frame.add("begin")
+                        if lo == -len(tv) and hi is None and tv.rstrip().endswith(b"END:VCARD"):
+                            frame.add("end")
     obs.append(ctx.ob(frame == {"begin", "end"}, f.qualname, f.where, "BEGIN/END frame required",
                       "a normal return requires startswith(BEGIN:VCARD) and endswith(END:VCARD)",
                       "VCardFile.validate can return normally for a body without the BEGIN:VCARD/END:VCARD frame (missing: %s)"
